@@ -207,6 +207,11 @@ func parseJSONPolygonCoords(
 			return nil, nil, errCoordinatesInvalid
 		}
 	}
+	if !rcoords.IsArray() {
+		// coordinates handed in by a Multi* parent: an object in place of the
+		// array would otherwise be walked value by value and accepted
+		return nil, nil, errCoordinatesInvalid
+	}
 	rcoords.ForEach(func(key, value gjson.Result) bool {
 		if !value.IsArray() {
 			err = errCoordinatesInvalid
@@ -215,6 +220,10 @@ func parseJSONPolygonCoords(
 		coords = append(coords, []geometry.Point{})
 		ii := len(coords) - 1
 		value.ForEach(func(key, value gjson.Result) bool {
+			if !value.IsArray() {
+				err = errCoordinatesInvalid // a position is an array
+				return false
+			}
 			var count int
 			var nums [4]float64
 			value.ForEach(func(key, value gjson.Result) bool {
